@@ -182,8 +182,28 @@ def fin_sched(w):
     return judge(w, w.cfg["same"], "sched")
 
 
+def third_party_cfg(flow):
+    """a participant holding another code talks first: its PAKE and its (undecryptable) version are in the mailbox before the
+    local user has finished entering the code"""
+    from .c14 import third
+    tb = [("set_code", BASE)] if flow == "set" else [("input",), ("nameplate", "4"), ("words", "purple-sausages")]
+    return dict(clients=[dict(threads=[tb], mode="delegate", appid="appid", versions={"who": "a"})],
+                raw=[third("otherpw")], explored=("down", "up", "api", "connect", "raw"),
+                same=False, monitors=[mon_sched], final_monitors=[fin_third])
+
+
+def fin_third(w):
+    out = judge_differ(w, "third", final=True)
+    c = w.clients[0]
+    heard = any(m.get("side") != c.boss._side and m.get("phase") != "pake" for m in c.delivered_msgs())
+    code_known = any(k == "code" for k, _ in c.app.obs)
+    return out if (heard and code_known) else [v for v in out if v["oracle"] != "different-code-scared"]
+
+
 def scenarios(tier):
     S = []
+    for flow in ("set", "input"):
+        S.append(mk("third-other-code-%s" % flow, third_party_cfg(flow), max_depth=90, max_states=300000))
     reps = [("equal", BASE, BASE), ("nfc-nfd", CODES[6], CODES[7]), ("one-char", BASE, CODES[1])]
     for name, ca, cb in reps:
         for flowb in ("set", "input"):
